@@ -50,11 +50,14 @@ func RunConc(line string, mk func(cfg string, nthreads int) Obj) string {
 		}
 		sched = append(sched, n)
 	}
+	s := vsched.New()
 	obj := mk(cfg, len(progs))
 	if obj == nil {
 		return "bad-case"
 	}
-	s := vsched.New()
+	if f, ok := obj.(interface{ FocusObjs() []any }); ok {
+		s.Focus(f.FocusObjs()...)
+	}
 	results := make([][]string, len(progs))
 	for tid, prog := range progs {
 		tid, prog := tid, prog
